@@ -28,7 +28,7 @@ import (
 //  Layer A (this file, VerifC12AccountMoney): for ONE arbitrary account the real
 //    AccountData.Money / WithUpdatedRewards / MicroAlgos.RewardUnits return
 //    exactly money(a, L) and floor(algos/unit), and do not panic inside the domain.
-//  Layer B (zz_verif_c12step.go): one inductive step of DelAccount+AddAccount
+//  Layer B (second half of this file): one inductive step of DelAccount+AddAccount
 //    and of ApplyRewards over n accounts satisfying INV, with the two per-account
 //    helpers replaced by the contract Layer A establishes (the contract's
 //    precondition is ASSERTED at every call, its postcondition assumed).
@@ -139,5 +139,340 @@ func VerifC12AccountMoney() {
 	vr.Assert("c12.acct.rewarded", rw.Raw == rewarded+(m.Raw-algos))
 	e := a.WithUpdatedRewards(unit, level)
 	vr.Assert("c12.acct.updated", e.MicroAlgos == m && e.RewardedMicroAlgos == rw && e.RewardsBase == level && e.Status == a.Status)
+	vr.Reach("done")
+}
+
+// C12, Layer B: one inductive step of the incremental totals over a ledger of
+// n accounts (n = 2 quick, 3 thorough) satisfying INV (see zz_verif_c12.go).
+//
+// The per-account helpers are replaced by CONTRACTS. Every contract ASSERTS its
+// precondition - a call outside the domain, where the real code would panic, is
+// a violation here too - and returns what Layer A (VerifC12AccountMoney,
+// VerifC12RewardUnits) and C45 (VerifC45Tracker) prove the real code returns.
+//
+//  VerifC12DelAdd (quick + thorough): DelAccount(old)+AddAccount(new). The step
+//    does not depend on WHAT money(a, L) and floor(x/unit) are, only on the totals
+//    accumulating exactly the values the helpers return. They are therefore
+//    uninterpreted functions M(algos, base, unit, level), Q(algos, unit) and an
+//    uninterpreted domain predicate valid(...): the step is proved for EVERY
+//    interpretation, in particular for money()/floor()/"fits 64 bits" of Layer A.
+//    (No 64x64 product is left in the queries; z3 decides them directly.)
+//  VerifC12DelAddExact (thorough only): the same step with the exact-integer
+//    formulas instead of M, Q, valid (every query goes to the integer back end).
+//  VerifC12ApplyRewards: the level moves L -> L' >= L; exact-integer formulas.
+//    VerifC12MoneyAffine proves the per-account lemma
+//    money(a, L') = money(a, L) + q*(L'-L) which the step then assumes as a hint.
+//
+// By symmetry of the sums the modified account is account 0. All amounts,
+// bases, levels and the unit are unconstrained 64-bit values inside the domain
+// of zz_verif_c12.go.
+
+// verifC12Abstract selects the uninterpreted model of the per-account helpers.
+var verifC12Abstract bool
+
+func verifC12M(algos, base, unit, level uint64) uint64 {
+	return vr.UF64("c12.M", algos, base, unit, level)
+}
+
+func verifC12Valid(algos, base, unit, level uint64) bool {
+	return vr.UF64("c12.valid", algos, base, unit, level) != 0
+}
+
+func verifC12Q(algos, unit uint64) uint64 {
+	if verifC12Abstract {
+		return vr.UF64("c12.Q", algos, unit)
+	}
+	return verifC12Quot(algos, unit)
+}
+
+// Contract of AccountData.Money established by VerifC12AccountMoney.
+func verifStubMoney(u AccountData, unit uint64, level uint64) (basics.MicroAlgos, basics.MicroAlgos) {
+	if u.Status == basics.NotParticipating {
+		return u.MicroAlgos, u.RewardedMicroAlgos
+	}
+	vr.Assert("c12.contract.unit-nonzero", unit != 0)
+	var m uint64
+	if verifC12Abstract {
+		vr.Assert("c12.contract.money-domain", verifC12Valid(u.MicroAlgos.Raw, u.RewardsBase, unit, level))
+		m = verifC12M(u.MicroAlgos.Raw, u.RewardsBase, unit, level)
+	} else {
+		q := verifC12Quot(u.MicroAlgos.Raw, unit)
+		vr.Assert("c12.contract.base-le-level", u.RewardsBase <= level)
+		exact := verifC12MoneyExact(u.MicroAlgos.Raw, q, u.RewardsBase, level)
+		vr.Assert("c12.contract.money-fits", exact.IsU64())
+		m = exact.U64Trunc()
+	}
+	return basics.MicroAlgos{Raw: m}, basics.MicroAlgos{Raw: u.RewardedMicroAlgos.Raw + (m - u.MicroAlgos.Raw)}
+}
+
+func verifStubRewardUnitsB(m basics.MicroAlgos, unit uint64) uint64 {
+	vr.Assert("c12.contract.unit-nonzero", unit != 0)
+	return verifC12Q(m.Raw, unit)
+}
+
+// verifC12Acct is one account together with its ghost quotient.
+type verifC12Acct struct {
+	data AccountData
+	st   int    // concrete status (index into verifC12Statuses, == int(data.Status))
+	q    uint64 // ghost: floor(MicroAlgos / unit)
+}
+
+// verifC12Account makes an arbitrary account of the given status.
+func verifC12Account(label string, unit uint64, status int) verifC12Acct {
+	var a verifC12Acct
+	a.st = status
+	a.data.Status = verifC12Statuses[status]
+	a.data.MicroAlgos.Raw = vr.U64(label + ".algos")
+	a.data.RewardsBase = vr.U64(label + ".base")
+	a.data.RewardedMicroAlgos.Raw = vr.U64(label + ".rewarded")
+	a.q = verifC12Q(a.data.MicroAlgos.Raw, unit)
+	return a
+}
+
+// verifC12AssumeValidAt restricts the account to the domain at `level` and
+// returns money(a, level) (which fits 64 bits inside the domain).
+func verifC12AssumeValidAt(a verifC12Acct, unit, level uint64) uint64 {
+	if a.st == verifC12NotPart {
+		return a.data.MicroAlgos.Raw
+	}
+	if verifC12Abstract {
+		vr.Assume(verifC12Valid(a.data.MicroAlgos.Raw, a.data.RewardsBase, unit, level))
+		return verifC12M(a.data.MicroAlgos.Raw, a.data.RewardsBase, unit, level)
+	}
+	vr.Assume(a.data.RewardsBase <= level)
+	exact := verifC12MoneyExact(a.data.MicroAlgos.Raw, a.q, a.data.RewardsBase, level)
+	vr.Assume(exact.IsU64())
+	return exact.U64Trunc()
+}
+
+// verifC12Sums is the oracle: exact per-status sums (index = basics.Status).
+type verifC12Sums struct {
+	money [3]vr.Z
+	units [3]vr.Z
+}
+
+func verifC12Zero() verifC12Sums {
+	var s verifC12Sums
+	for i := 0; i < 3; i++ {
+		s.money[i] = vr.ZU(0)
+		s.units[i] = vr.ZU(0)
+	}
+	return s
+}
+
+// add accumulates the contribution of an account whose money (at the level of
+// interest) is m.
+func (s *verifC12Sums) add(a verifC12Acct, m uint64) {
+	s.money[a.st] = s.money[a.st].Add(vr.ZU(m))
+	s.units[a.st] = s.units[a.st].Add(vr.ZU(a.q))
+}
+
+func verifC12Field(t *AccountTotals, st int) *AlgoCount {
+	switch st {
+	case verifC12Online:
+		return &t.Online
+	case verifC12Offline:
+		return &t.Offline
+	}
+	return &t.NotParticipating
+}
+
+func verifC12ArbitraryTotals() AccountTotals {
+	var t AccountTotals
+	t.Online.Money.Raw = vr.U64("tot.online.money")
+	t.Online.RewardUnits = vr.U64("tot.online.units")
+	t.Offline.Money.Raw = vr.U64("tot.offline.money")
+	t.Offline.RewardUnits = vr.U64("tot.offline.units")
+	t.NotParticipating.Money.Raw = vr.U64("tot.notpart.money")
+	t.NotParticipating.RewardUnits = vr.U64("tot.notpart.units")
+	t.RewardsLevel = vr.U64("tot.level")
+	return t
+}
+
+func verifC12AssumeInv(t *AccountTotals, s verifC12Sums) {
+	for st := 0; st < 3; st++ {
+		f := verifC12Field(t, st)
+		vr.Assume(vr.ZU(f.Money.Raw).Eq(s.money[st]))
+		vr.Assume(vr.ZU(f.RewardUnits).Eq(s.units[st]))
+	}
+}
+
+var verifC12Tags = [3][2]string{
+	{"c12.offline.money", "c12.offline.units"},
+	{"c12.online.money", "c12.online.units"},
+	{"c12.notpart.money", "c12.notpart.units"},
+}
+
+func verifC12AssertInv(t *AccountTotals, s verifC12Sums) {
+	for st := 0; st < 3; st++ {
+		f := verifC12Field(t, st)
+		vr.Assert(verifC12Tags[st][0], vr.ZU(f.Money.Raw).Eq(s.money[st]))
+		vr.Assert(verifC12Tags[st][1], vr.ZU(f.RewardUnits).Eq(s.units[st]))
+	}
+}
+
+// verifC12CheckReports: the three reporting functions return the exact sums
+// whenever these fit 64 bits (they Panicf on overflow by design; the money
+// supply is 10^16 microalgos in reality).
+func verifC12CheckReports(t *AccountTotals, s verifC12Sums) {
+	part := s.money[verifC12Online].Add(s.money[verifC12Offline])
+	all := part.Add(s.money[verifC12NotPart])
+	units := s.units[verifC12Online].Add(s.units[verifC12Offline])
+	if all.IsU64() {
+		vr.Reach("reports")
+		vr.Assert("c12.report.participating", vr.ZU(t.Participating().Raw).Eq(part))
+		vr.Assert("c12.report.all", vr.ZU(t.All().Raw).Eq(all))
+	}
+	if units.IsU64() {
+		vr.Assert("c12.report.rewardunits", vr.ZU(t.RewardUnits()).Eq(units))
+	}
+}
+
+var verifC12Labels = [3]string{"a0", "a1", "a2"}
+
+// verifC12RestStatus enumerates the status of account i >= 1. The sums are
+// symmetric in the untouched accounts, so only non-decreasing status sequences
+// are explored (every multiset of statuses is still covered).
+func verifC12RestStatus(i int, prev int) int {
+	st := vr.Choice(verifC12Labels[i]+".status", 3)
+	vr.Assume(st >= prev)
+	return st
+}
+
+// Step 1: one modified account: DelAccount(old) + AddAccount(new), arbitrary
+// old and new data (covers creation: old = zero data; closing: new = zero data;
+// every status change; every balance / base change).
+func verifC12DelAdd() {
+	unit := vr.U64("unit")
+	vr.Assume(unit >= 1)
+	t := verifC12ArbitraryTotals()
+	level := t.RewardsLevel
+	n := vr.Param(2, 3)
+
+	accts := make([]verifC12Acct, n)
+	money := make([]uint64, n)
+	pre := verifC12Zero()
+	prev := 0
+	for i := 0; i < n; i++ {
+		var status int
+		if i == 0 {
+			status = vr.Choice("a0.status", 3)
+		} else {
+			status = verifC12RestStatus(i, prev)
+			prev = status
+		}
+		accts[i] = verifC12Account(verifC12Labels[i], unit, status)
+		money[i] = verifC12AssumeValidAt(accts[i], unit, level)
+		pre.add(accts[i], money[i])
+	}
+	verifC12AssumeInv(&t, pre)
+
+	nw := verifC12Account("new", unit, vr.Choice("new.status", 3))
+	nwMoney := verifC12AssumeValidAt(nw, unit, level)
+
+	var ot basics.OverflowTracker
+	t.DelAccount(unit, accts[0].data, &ot)
+	// removing an account that IS part of the sum can never underflow
+	vr.Assert("c12.del.no-underflow", !ot.Overflowed)
+	t.AddAccount(unit, nw.data, &ot)
+
+	post := verifC12Zero()
+	post.add(nw, nwMoney)
+	for i := 1; i < n; i++ {
+		post.add(accts[i], money[i])
+	}
+	vr.Assert("c12.level-unchanged", t.RewardsLevel == level)
+	if ot.Overflowed {
+		vr.Reach("overflow")
+		// the tracker is raised only when a true sum does not fit 64 bits
+		vr.Assert("c12.overflow-genuine", !post.money[nw.st].IsU64() || !post.units[nw.st].IsU64())
+	} else {
+		vr.Reach("clean")
+		verifC12AssertInv(&t, post)
+		verifC12CheckReports(&t, post)
+	}
+	vr.Reach("done")
+}
+
+//verif:harness prop=C12 reach=done,clean,overflow,reports unwind=12 budget=200 thorough.budget=2400
+//verif:stub (github.com/algorand/go-algorand/ledger/ledgercore.AccountData).Money = verifStubMoney
+//verif:stub (github.com/algorand/go-algorand/data/basics.MicroAlgos).RewardUnits = verifStubRewardUnitsB
+func VerifC12DelAdd() {
+	verifC12Abstract = true
+	verifC12DelAdd()
+}
+
+//verif:harness prop=C12 tier=thorough reach=done,clean,overflow,reports unwind=12 budget=2400
+//verif:stub (github.com/algorand/go-algorand/ledger/ledgercore.AccountData).Money = verifStubMoney
+//verif:stub (github.com/algorand/go-algorand/data/basics.MicroAlgos).RewardUnits = verifStubRewardUnitsB
+func VerifC12DelAddExact() {
+	verifC12Abstract = false
+	verifC12DelAdd()
+}
+
+// Lemma used by the ApplyRewards step: for one participating account with
+// base <= L <= L', money(a, L') = money(a, L) + q*(L'-L), for ANY q.
+//
+//verif:harness prop=C12 reach=done budget=100
+func VerifC12MoneyAffine() {
+	algos, q, base, l0, l1 := vr.U64("algos"), vr.U64("q"), vr.U64("base"), vr.U64("level"), vr.U64("newlevel")
+	vr.Assume(base <= l0)
+	vr.Assume(l0 <= l1)
+	lhs := verifC12MoneyExact(algos, q, base, l1)
+	rhs := verifC12MoneyExact(algos, q, base, l0).Add(vr.ZU(q).Mul(vr.ZU(l1 - l0)))
+	vr.Assert("c12.lemma.affine", lhs.Eq(rhs))
+	vr.Reach("done")
+}
+
+// Step 2: the rewards level moves from L to L' >= L. Every account stays as it
+// is (its RewardsBase is untouched: the rewards are pending); its money is now
+// evaluated at L'. Domain: every participating account is still evaluable at L'.
+// The quotient q of an account is left completely free here (ApplyRewards never
+// looks at an account; the step holds whatever the reward units are).
+//
+//verif:harness prop=C12 reach=done,clean,overflow,reports unwind=12 budget=200 thorough.budget=2400
+//verif:stub (*github.com/algorand/go-algorand/data/basics.OverflowTracker).Mul = verifStubOTMul
+func VerifC12ApplyRewards() {
+	verifC12Abstract = false
+	t := verifC12ArbitraryTotals()
+	level := t.RewardsLevel
+	newLevel := vr.U64("newlevel")
+	vr.Assume(newLevel >= level)
+	n := vr.Param(2, 3)
+
+	pre := verifC12Zero()
+	post := verifC12Zero()
+	prev := 0
+	for i := 0; i < n; i++ {
+		var a verifC12Acct
+		a.st = verifC12RestStatus(i, prev)
+		prev = a.st
+		a.data.Status = verifC12Statuses[a.st]
+		a.data.MicroAlgos.Raw = vr.U64(verifC12Labels[i] + ".algos")
+		a.data.RewardsBase = vr.U64(verifC12Labels[i] + ".base")
+		a.q = vr.U64(verifC12Labels[i] + ".q")
+		m0 := verifC12AssumeValidAt(a, 0, level)
+		m1 := verifC12AssumeValidAt(a, 0, newLevel)
+		if a.st != verifC12NotPart {
+			// hint: VerifC12MoneyAffine
+			vr.Assume(vr.ZU(m1).Eq(vr.ZU(m0).Add(vr.ZU(a.q).Mul(vr.ZU(newLevel - level)))))
+		}
+		pre.add(a, m0)
+		post.add(a, m1)
+	}
+	verifC12AssumeInv(&t, pre)
+
+	var ot basics.OverflowTracker
+	t.ApplyRewards(newLevel, &ot)
+
+	vr.Assert("c12.level-set", t.RewardsLevel == newLevel)
+	if ot.Overflowed {
+		vr.Reach("overflow")
+		vr.Assert("c12.overflow-genuine", !post.money[verifC12Online].IsU64() || !post.money[verifC12Offline].IsU64())
+	} else {
+		vr.Reach("clean")
+		verifC12AssertInv(&t, post)
+		verifC12CheckReports(&t, post)
+	}
 	vr.Reach("done")
 }
